@@ -32,7 +32,8 @@ import (
 )
 
 func main() {
-	tx.Main(tx.Unit{Name: "T3", File: "GenCfgMsg.v", Fn: genCfgMsg}, tx.Unit{Name: "T7F", File: "GenFlags.v", Fn: genFlags})
+	tx.Main(tx.Unit{Name: "T3", File: "GenCfgMsg.v", Fn: genCfgMsg}, tx.Unit{Name: "T7F", File: "GenFlags.v", Fn: genFlags},
+		tx.Unit{Name: "T3L", File: "GenLoadShape.v", Fn: genLoadShape})
 }
 
 type fieldInfo struct {
@@ -426,6 +427,18 @@ func (t *tr) value(e ast.Expr, ev *env) (val, bool) {
 			a, ok := t.access(se.X, ev)
 			if ok && a.k.code == "bwq" {
 				return val{coq: "(bw_string " + a.getter() + ")", k: "string", srcs: []string{a.root + ":" + a.dotted()}}, true
+			}
+			return val{}, false
+		}
+		if fn == "strings.TrimSpace" && len(x.Args) == 1 {
+			if a, ok := t.value(x.Args[0], ev); ok && a.k == "string" {
+				return val{coq: "(lit_trim_space " + a.coq + ")", k: "string", srcs: a.srcs}, true
+			}
+			return val{}, false
+		}
+		if (fn == "strings.ToLower") && len(x.Args) == 1 {
+			if a, ok := t.value(x.Args[0], ev); ok && a.k == "string" {
+				return val{coq: "(lower " + a.coq + ")", k: "string", srcs: a.srcs}, true
 			}
 			return val{}, false
 		}
